@@ -52,6 +52,7 @@ RULE = ("every public method of tensor/sptensor/ktensor/ttensor/sumtensor/tenmat
         "write every element, both directions) every case is observed at OBJECT level: a returned pyttb object that IS an "
         "operand object, and a write through the public __setitem__ of either side re-read through the other (holders "
         "re-walked, so a rebound attribute counts - this is what makes an aliased tensor without nonzeros visible); "
+        "tensor.tenfun / tenfun_unary / tenfun_binary also with handles that return (a view of) their argument, with and without inputs; "
         "non-trivial = the call succeeded and returned or changed at least one array; distinct = distinct case hash")
 ASSUMPTIONS = [
     "the classification of NumPy calls into view / fresh / in-place write used by the heap model (checked on every "
